@@ -1,7 +1,9 @@
 // Thread / file-system commands: loggers (C28), rotation (C29), the FastFlow queue (C30), the timer (C31).
 //
 //   logrun <levels,csv of d i w e f|-> <nprod> <stop_after_n|-1> <script;script;...>
-//        script = string of level letters, one line per letter; line text = P<producer>L<index>
+//        script = string of level letters, one line per letter; line text = P<producer>L<index>;  y = yield;  h = hold: the producer's next submit is
+//        stalled inside the queue push between claiming its slot and publishing it (yield point 3 of uMPMC_Ptr_Queue::push) until stop() has been entered
+//        (plus 1 ms; at most 200 ms) - an injected schedule: a line accepted from another producer behind a claimed but unpublished slot
 //        every producer thread submits its lines through FileLogger::send; stop() is called by the main thread after all producers
 //        have finished (stop_after_n = -1) or as soon as the total number of returned sends reaches stop_after_n (while producers run)
 //        -> {"ret":[[r,before]...per producer], "file":hex, "stop_s":seconds}     before: the send returned before stop() was entered
@@ -36,6 +38,26 @@ static void rm_rf(const std::string& dir)
 
 static Logger::Level lev_of(char c) { return c == 'd' ? Logger::Debug : c == 'i' ? Logger::Info : c == 'w' ? Logger::Warn : c == 'e' ? Logger::Error : Logger::Fatal; }
 
+static thread_local bool t_hold_next(false);
+static std::atomic<bool> g_log_stop_entered(false);
+static std::atomic<int> g_log_parked(0);
+static void log_hold_hook(int tag, unsigned long)
+{
+	if (tag != 3 || !t_hold_next)
+		return;
+	t_hold_next = false;
+	++g_log_parked;
+	struct timespec t0, t;
+	clock_gettime(CLOCK_MONOTONIC, &t0);
+	for (;;)
+	{
+		if (g_log_stop_entered.load()) { usleep(1000); return; }
+		clock_gettime(CLOCK_MONOTONIC, &t);
+		if ((t.tv_sec - t0.tv_sec) * 1000 + (t.tv_nsec - t0.tv_nsec) / 1000000 > 200) return;
+		usleep(50);
+	}
+}
+
 static Reg r_logrun("logrun", [](std::istringstream& is) {
 	static unsigned serial(0);
 	vclock_on = false;     // the logger thread sleeps in real time while its queue is empty
@@ -49,6 +71,14 @@ static Reg r_logrun("logrun", [](std::istringstream& is) {
 	unlink(path.c_str());
 	std::vector<std::vector<std::pair<int, int>>> rets(sc.size());
 	double stop_s(0);
+	g_log_stop_entered = false;
+	g_log_parked = 0;
+	const bool holds(scripts.find('h') != std::string::npos);
+	// producers whose script begins with a hold go first: the others start submitting once those are parked inside the push (or after 50 ms), so that
+	// their lines are accepted behind a claimed but unpublished slot
+	int lead_holds(0);
+	for (auto& t : sc) if (!t.empty() && t[0] == 'h') ++lead_holds;
+	if (holds) ff::verif_hook() = log_hold_hook;
 	{
 		FileLogger lg(path, Logger::LogFlags() << Logger::sequence << Logger::thread << Logger::level, levels, " ", Logger::LogPositions(), 0);
 		std::atomic<int> go(0);
@@ -58,9 +88,21 @@ static Reg r_logrun("logrun", [](std::istringstream& is) {
 		for (size_t p(0); p < sc.size(); ++p)
 			th.emplace_back([&, p] {
 				while (!go.load()) sched_yield();
+				if (lead_holds && !(!sc[p].empty() && sc[p][0] == 'h'))
+				{
+					struct timespec t0, t;
+					clock_gettime(CLOCK_MONOTONIC, &t0);
+					while (g_log_parked.load() < lead_holds)
+					{
+						clock_gettime(CLOCK_MONOTONIC, &t);
+						if ((t.tv_sec - t0.tv_sec) * 1000 + (t.tv_nsec - t0.tv_nsec) / 1000000 > 50) break;
+						sched_yield();
+					}
+				}
 				for (size_t k(0); k < sc[p].size(); ++k)
 				{
 					if (sc[p][k] == 'y') { sched_yield(); rets[p].emplace_back(-1, -1); continue; }
+					if (sc[p][k] == 'h') { t_hold_next = true; rets[p].emplace_back(-1, -1); continue; }
 					const bool r(lg.send("P" + std::to_string(p) + "L" + std::to_string(k), lev_of(sc[p][k])));
 					const bool before(!stop_entered.load());
 					++returned;
@@ -75,6 +117,7 @@ static Reg r_logrun("logrun", [](std::istringstream& is) {
 		struct timespec t0, t1;
 		clock_gettime(CLOCK_MONOTONIC, &t0);
 		stop_entered = true;
+		g_log_stop_entered = true;
 		lg.stop();
 		clock_gettime(CLOCK_MONOTONIC, &t1);
 		stop_s = (t1.tv_sec - t0.tv_sec) + (t1.tv_nsec - t0.tv_nsec) / 1e9;
@@ -91,6 +134,7 @@ static Reg r_logrun("logrun", [](std::istringstream& is) {
 		j.k("file_after_destruction").raw("null");
 		const std::string out(j.done());
 		unlink(path.c_str());
+		if (holds) ff::verif_hook() = nullptr;
 		return out;
 	}
 });
